@@ -303,7 +303,8 @@ func runC12Cluster(c *Ctx) {
 		rounds = 120
 	}
 	reported := map[string]bool{}
-	for round := 0; round < rounds; round++ {
+	stop := false
+	for round := 0; round < rounds && !stop; round++ {
 		n := 1 + c.Rng.Intn(3)
 		k := n + 1 + c.Rng.Intn(4)
 		order := c.Rng.Perm(k)
@@ -353,7 +354,11 @@ func runC12Cluster(c *Ctx) {
 			continue
 		}
 		reported[v.key] = true
+		stop = true
 		r.violate(Violation{Kind: "property", Key: v2.key, What: "cluster mode, mrp restart: " + v2.what, Input: v2.extra,
 			Expect: "semaphore count = jobs in flight after re-attach; never more than --maxjobs outstanding; every chunk runs"})
+	}
+	if stop {
+		r.note("cluster restart rounds stopped after the first confirmed violation")
 	}
 }
